@@ -528,6 +528,8 @@ def build(construct: str, mag: int, pos: str, rng) -> dict:
                  "string_nop": '<table:table-cell{rep} office:value-type="string"/>',
                  "string_attr": '<table:table-cell{rep} office:value-type="string" office:string-value=""><text:p></text:p></table:table-cell>',
                  "string_span": '<table:table-cell{rep} office:value-type="string"><text:p><text:span/></text:p></table:table-cell>',
+                 # the covered part of a merge (no value, no text): an empty cell all the same
+                 "covered": '<table:covered-table-cell{rep}/>',
                  }[variant]
         if c == "ods_cell_repeat_typed_empty":
             marker_cell = ["str", "TYPEDEMPTY"]
